@@ -17,6 +17,7 @@ PROFILE = {
     "min_dm": 1,
     "max_dm": 5,
     "mask_p": 0.75,
+    "wide_p": 0.03,
     "mono_p": 0.85,
     "fill_p": 0.5,
     "mc": {"max_window": 5},
